@@ -158,6 +158,7 @@ func init() {
 		"time.Sleep":             func(fr *frame, a []value) value { fr.i.needSched().gosched(); return nil },
 		"time.now":               extTimeNowRaw,
 		"time.runtimeNano":       func(fr *frame, a []value) value { return int64(1700000000000000000) },
+		"time.initLocal":         func(fr *frame, a []value) value { return nil }, // the local zone stays the zero Location: UTC
 		"runtime.nanotime":       func(fr *frame, a []value) value { return int64(1700000000000000000) },
 
 		// sync
